@@ -204,7 +204,7 @@ def assignment(o):
     return {"mod2uri": mod2uri, "prefix2uri": prefix2uri, "problems": problems}
 
 
-def normalize_structs(o, A):
+def normalize_structs(o, A, include_root=False):
     """the implementation's structs in the reference format of Spec.Ref.structLines (modules and prefixes
     replaced by the URI they stand for); only items inside namespace modules"""
     out = []
@@ -225,9 +225,9 @@ def normalize_structs(o, A):
         return "{" + (u if u is not None else "?" + mod) + "}" + l
 
     for s in o["structs"]:
-        if s["mod"] == "-" or "::" in s["mod"]:
+        if (s["mod"] == "-" and not include_root) or "::" in s["mod"]:
             continue
-        u = A["mod2uri"].get(s["mod"], "?" + s["mod"])
+        u = "(no module)" if s["mod"] == "-" else A["mod2uri"].get(s["mod"], "?" + s["mod"])
         out.append(f"STRUCT\t{u}\t{s['name']}\trename={s['rename'] if s['rename'] is not None else '-'}")
         fs = s["fields"]
         if len(fs) == 1 and fs[0]["name"] == "value" and (fs[0]["text"] or fs[0]["flatten"]):
